@@ -82,3 +82,17 @@ def configured_type_without_active(infos, userfile):
     return any(t in TYPES and t not in active for t in (userfile or {}))
 
 
+
+
+def list_items(text):
+    """a comma-separated list as a configuration file holds it: the items between the commas, blanks around each removed"""
+    items = []
+    cur = ""
+    for ch in text:
+        if ch == ",":
+            items.append(cur.strip(" "))
+            cur = ""
+        else:
+            cur = cur + ch
+    items.append(cur.strip(" "))
+    return items
